@@ -325,7 +325,7 @@ def replay(data):
 # --- R, the end-to-end reference assembler (Model/Asm.v): Props/R.v composes C02 with C01, C05, C06 on whole programs;
 # explore_r assembles generated programs and the practice corpus with the Coq model and compares with the implementation
 import r_corr  # noqa: E402
-PROP_FILES = PROP_FILES + ["Props/R.v"]
+PROP_FILES = PROP_FILES + ["Props/R.v", "Props/R_reloc.v"]  # R_reloc: byte-level relocation law on whole programs (C09 on R)
 RUN_FILES = RUN_FILES + ["Run/RRun.v"]
 _explore_without_r = explore
 
